@@ -93,32 +93,44 @@ pub open spec fn frame(x: Seq<u8>) -> Seq<u8> { be32(x.len()) + x }
 // tokio_util::codec::{LengthDelimitedCodec, Builder, FramedWrite, FramedRead} (tokio-util 0.7.19):
 // builder defaults: max_frame_len 8 MiB (length_delimited.rs:694), 4-byte big-endian length at offset 0, no adjustment.
 pub const TOKIO_UTIL_DEFAULT_MAX_FRAME: usize = 8388608;
-pub struct LengthDelimitedCodec { pub max: usize, pub lfl: usize, pub be: bool }
-pub struct Builder { pub max: usize, pub lfl: usize, pub be: bool }
+// `plain`: the length field counts exactly the payload and sits at the very start of a frame (no length adjustment, no offset, no skip override)
+pub struct LengthDelimitedCodec { pub max: usize, pub lfl: usize, pub be: bool, pub plain: bool }
+pub struct Builder { pub max: usize, pub lfl: usize, pub be: bool, pub plain: bool }
 impl LengthDelimitedCodec {
     #[verifier::external_body]
-    pub fn builder() -> (r: Builder) ensures r.max == TOKIO_UTIL_DEFAULT_MAX_FRAME, r.lfl == 4, r.be == true { unimplemented!() }
+    pub fn builder() -> (r: Builder) ensures r.max == TOKIO_UTIL_DEFAULT_MAX_FRAME, r.lfl == 4, r.be == true, r.plain { unimplemented!() }
     // (the codec's own accessors for its limit, which edits to the framing reach for)
     #[verifier::external_body]
     pub fn max_frame_length(&self) -> (r: usize) ensures r == self.max { unimplemented!() }
     #[verifier::external_body]
-    pub fn set_max_frame_length(&mut self, v: usize) ensures final(self).max == v, final(self).lfl == old(self).lfl, final(self).be == old(self).be { unimplemented!() }
+    pub fn set_max_frame_length(&mut self, v: usize) ensures final(self).max == v, final(self).lfl == old(self).lfl, final(self).be == old(self).be, final(self).plain == old(self).plain { unimplemented!() }
 }
 impl Builder {
     #[verifier::external_body]
     pub fn max_frame_length(&mut self, v: usize) -> (r: &mut Self)
-        ensures r.max == v, r.lfl == old(self).lfl, r.be == old(self).be, *final(self) == *final(r) { unimplemented!() }
+        ensures r.max == v, r.lfl == old(self).lfl, r.be == old(self).be, r.plain == old(self).plain, *final(self) == *final(r) { unimplemented!() }
     #[verifier::external_body]
     pub fn length_field_length(&mut self, v: usize) -> (r: &mut Self)
-        ensures r.lfl == v, r.max == old(self).max, r.be == old(self).be, *final(self) == *final(r) { unimplemented!() }
+        ensures r.lfl == v, r.max == old(self).max, r.be == old(self).be, r.plain == old(self).plain, *final(self) == *final(r) { unimplemented!() }
     #[verifier::external_body]
     pub fn big_endian(&mut self) -> (r: &mut Self)
-        ensures r.be == true, r.max == old(self).max, r.lfl == old(self).lfl, *final(self) == *final(r) { unimplemented!() }
+        ensures r.be == true, r.max == old(self).max, r.lfl == old(self).lfl, r.plain == old(self).plain, *final(self) == *final(r) { unimplemented!() }
     #[verifier::external_body]
     pub fn little_endian(&mut self) -> (r: &mut Self)
-        ensures r.be == false, r.max == old(self).max, r.lfl == old(self).lfl, *final(self) == *final(r) { unimplemented!() }
+        ensures r.be == false, r.max == old(self).max, r.lfl == old(self).lfl, r.plain == old(self).plain, *final(self) == *final(r) { unimplemented!() }
     #[verifier::external_body]
-    pub fn new_codec(&self) -> (r: LengthDelimitedCodec) ensures r.max == self.max, r.lfl == self.lfl, r.be == self.be { unimplemented!() }
+    // the builder's other knobs: anything but their defaults changes what the length field means
+    #[verifier::external_body]
+    pub fn length_adjustment(&mut self, v: isize) -> (r: &mut Self)
+        ensures r.plain == (old(self).plain && v == 0), r.max == old(self).max, r.lfl == old(self).lfl, r.be == old(self).be, *final(self) == *final(r) { unimplemented!() }
+    #[verifier::external_body]
+    pub fn length_field_offset(&mut self, v: usize) -> (r: &mut Self)
+        ensures r.plain == (old(self).plain && v == 0), r.max == old(self).max, r.lfl == old(self).lfl, r.be == old(self).be, *final(self) == *final(r) { unimplemented!() }
+    #[verifier::external_body]
+    pub fn num_skip(&mut self, v: usize) -> (r: &mut Self)
+        ensures r.plain == false, r.max == old(self).max, r.lfl == old(self).lfl, r.be == old(self).be, *final(self) == *final(r) { unimplemented!() }
+    #[verifier::external_body]
+    pub fn new_codec(&self) -> (r: LengthDelimitedCodec) ensures r.max == self.max, r.lfl == self.lfl, r.be == self.be, r.plain == self.plain { unimplemented!() }
 }
 pub struct FramedWrite<T, C> { pub inner: T, pub codec: C }
 impl<T: AsyncWrite> FramedWrite<T, LengthDelimitedCodec> {
@@ -135,7 +147,7 @@ impl<T: AsyncWrite> FramedWrite<T, LengthDelimitedCodec> {
     // encode (length_delimited.rs:608): `if n > max_frame_len { return Err(frame size too big) }`, then length head + payload
     #[verifier::external_body]
     pub async fn send(&mut self, item: Bytes) -> (r: Result<()>)
-        requires old(self).codec.lfl == 4, old(self).codec.be
+        requires old(self).codec.lfl == 4, old(self).codec.be, old(self).codec.plain
         ensures final(self).codec == old(self).codec, final(self).inner.id() == old(self).inner.id(),
             r is Ok ==> item@.len() <= old(self).codec.max && final(self).inner.out() == old(self).inner.out() + frame(item@),
             item@.len() > old(self).codec.max ==> r is Err && final(self).inner.out() == old(self).inner.out(),
@@ -164,7 +176,7 @@ impl<T: AsyncRead> FramedRead<T, LengthDelimitedCodec> {
     // decode (length_delimited.rs:522): `if n > max_frame_len { Err }`; EOF with a partial frame is an error, EOF with nothing is None
     #[verifier::external_body]
     pub async fn next(&mut self) -> (r: Option<core::result::Result<BytesMut, Error>>)
-        requires old(self).codec.lfl == 4, old(self).codec.be
+        requires old(self).codec.lfl == 4, old(self).codec.be, old(self).codec.plain
         ensures final(self).codec == old(self).codec,
             (r is Some && r->Some_0 is Ok) <==> take_frame(old(self).input(), old(self).codec.max as nat) is Some,
             r is Some && r->Some_0 is Ok ==> (r->Some_0->Ok_0)@ == take_frame(old(self).input(), old(self).codec.max as nat)->Some_0.0
@@ -415,7 +427,7 @@ pub open spec fn no_limit() -> usize { usize::MAX }   // "no size limit is impos
 '''
     t += C.fn(WIRE, 'fn network_message_frame_codec', 'network_message_frame_codec', ['C15', 'C07'], ret='r', spec='''
     ensures
-        r.lfl == 4 && r.be, // @OBL network_message_frame_codec::length_field [C07,C15] frames carry a 4-byte big-endian length prefix
+        r.lfl == 4 && r.be && r.plain, // @OBL network_message_frame_codec::length_field [C07,C15] frames carry a 4-byte big-endian length prefix that counts exactly the payload
         config.max_frame_size is Some ==> r.max == config.max_frame_size->Some_0, // @OBL network_message_frame_codec::configured_limit [C15] a configured maximum frame size is the codec's limit, exactly
         config.max_frame_size is None ==> r.max == TOKIO_UTIL_DEFAULT_MAX_FRAME, // @OBL network_message_frame_codec::unconfigured_limit_is_tokio_default [C15] (fingerprint of the known finding) with no maximum configured the limit is tokio-util's 8 MiB default
 ''')
@@ -433,9 +445,9 @@ fn obligation_no_limit_when_unconfigured(config: &Config)
     # ---- message writers / readers ----------------------------------------------------------------------
     codec_pre = '''
     requires
-        old(%s).codec.lfl == 4 && old(%s).codec.be,
+        old(%s).codec.lfl == 4 && old(%s).codec.be && old(%s).codec.plain,
 '''
-    t += C.fn(WIRE, 'fn write_request', 'write_request', ['C07', 'C15', 'C02'], ret='r', spec=codec_pre % ('send_stream', 'send_stream') + '''
+    t += C.fn(WIRE, 'fn write_request', 'write_request', ['C07', 'C15', 'C02'], ret='r', spec=codec_pre % ('send_stream', 'send_stream', 'send_stream') + '''
     ensures
         r is Ok ==> final(send_stream).inner.out() == old(send_stream).inner.out()
             + enc_message(request.head.version, raw_req(request.head.route, request.head.headers).ser(), request.body@), // @OBL write_request::layout [C07,C02] bytes written = preamble(version) ++ frame(bincode(route, headers)) ++ frame(body): nothing else, in this order, extensions not included
@@ -443,7 +455,7 @@ fn obligation_no_limit_when_unconfigured(config: &Config)
             && request.body@.len() <= old(send_stream).codec.max, // @OBL write_request::sender_enforces_limit [C15] a request whose header or body exceeds the local maximum is refused by the sender
         final(send_stream).codec == old(send_stream).codec && final(send_stream).inner.id() == old(send_stream).inner.id(), // @OBL write_request::codec_unchanged [C15,C02] writing changes neither the limit nor which stream is written to
 ''')
-    t += C.fn(WIRE, 'fn write_response', 'write_response', ['C07', 'C15', 'C02'], ret='r', spec=codec_pre % ('send_stream', 'send_stream') + '''
+    t += C.fn(WIRE, 'fn write_response', 'write_response', ['C07', 'C15', 'C02'], ret='r', spec=codec_pre % ('send_stream', 'send_stream', 'send_stream') + '''
     ensures
         r is Ok ==> final(send_stream).inner.out() == old(send_stream).inner.out()
             + enc_message(response.head.version, raw_resp(status_code(response.head.status), response.head.headers).ser(), response.body@), // @OBL write_response::layout [C07,C02] bytes written = preamble(version) ++ frame(bincode(status number, headers)) ++ frame(body)
@@ -451,7 +463,7 @@ fn obligation_no_limit_when_unconfigured(config: &Config)
         final(send_stream).codec == old(send_stream).codec && final(send_stream).inner.id() == old(send_stream).inner.id(), // @OBL write_response::codec_unchanged [C15,C02] writing changes neither the limit nor which stream is written to
 ''')
     t += C.fn(WIRE, 'fn read_request', 'read_request', ['C07', 'C06', 'C15', 'C02'], ret='r',
-              spec=codec_pre % ('recv_stream', 'recv_stream') + '''        old(recv_stream).buffered@.len() == 0,
+              spec=codec_pre % ('recv_stream', 'recv_stream', 'recv_stream') + '''        old(recv_stream).buffered@.len() == 0,
     ensures
         r is Ok <==> ({
             let d = dec_message(old(recv_stream).inner.remaining(), old(recv_stream).codec.max as nat);
@@ -466,7 +478,7 @@ fn obligation_no_limit_when_unconfigured(config: &Config)
         r is Ok ==> r->Ok_0.head.extensions.is_empty_spec(), // @OBL read_request::no_extensions [C07,C01] nothing carried in the message ends up in the request's extensions
 ''')
     t += C.fn(WIRE, 'fn read_response', 'read_response', ['C07', 'C06', 'C15', 'C02'], ret='r',
-              spec=codec_pre % ('recv_stream', 'recv_stream') + '''        old(recv_stream).buffered@.len() == 0,
+              spec=codec_pre % ('recv_stream', 'recv_stream', 'recv_stream') + '''        old(recv_stream).buffered@.len() == 0,
     ensures
         r is Ok <==> ({
             let d = dec_message(old(recv_stream).inner.remaining(), old(recv_stream).codec.max as nat);
